@@ -1,4 +1,6 @@
 import Driver.Loop
+import Driver.C08
+import Driver.C10
 
 /-- handlers of this executable; each builder adds `Driver.Cxx.handle` here -/
-def main : IO Unit := Driver.runMain []
+def main : IO Unit := Driver.runMain [Driver.C08.handle, Driver.C10.handle]
